@@ -693,6 +693,11 @@ def model_script(lines, results, gens):
         elif c == "sm":
             out.append("%s sm" % cid)
             cmp_ids.append(cid)
+        elif c == "react" and res.startswith("react"):
+            # C20: the model's sweep (Pop/SmLaterDefs.v react over full_ids) against the harness's: same number of
+            # fully valid blocks tried, every answer true, same state afterwards (the next sm line)
+            out.append("%s react" % cid)
+            cmp_ids.append(cid)
     return out, cmp_ids
 
 
@@ -1630,6 +1635,7 @@ def run_check(ctx, pid):
                                       "what": "instances with the same active chain differ: " + what}, False))
     # 4. correspondence with the model
     ncmp = nagree = 0
+    react_cov = {"sweeps_compared": 0, "sweeps_agree": 0, "setstate_attempts_compared": 0}
     dis = []
     if model is not None:
         if replay_model is not None:
@@ -1655,6 +1661,11 @@ def run_check(ctx, pid):
                 ncmp += 1
                 want = want_of(cid, results[cid])
                 got = mres.get(cid)
+                if byid[cid].split()[3] == "react":
+                    react_cov["sweeps_compared"] += 1
+                    if got == want:
+                        react_cov["sweeps_agree"] += 1
+                        react_cov["setstate_attempts_compared"] += int(want.split("n=")[1].split()[0]) if "n=" in want else 0
                 if got == want:
                     nagree += 1
                 else:
@@ -1721,6 +1732,7 @@ def run_check(ctx, pid):
                                "generator": sc.stats, "equal_pairs_checked": neq, "equal_pairs_skipped_sp_carve_out": ncarved, "oracle_failures": len(oracle),
                                "crashes": len(crashes), "model_disagreements": len(dis),
                                "gen_s": round(tgen, 1), "harness_s": round(trun, 1)}
+    ctx.cov["distribution"]["c20_react_model_vs_impl"] = react_cov
     ctx.cov["partial_theorems"] = [t for t in ctx.cov.get("theorems", []) if t.endswith("_partial")]
     for l in lines[:2] + lines[-2:]:
         ctx.sample({"line": l, "impl": (results.get(l.split()[0]) or "")[:200]})
